@@ -158,6 +158,12 @@ def check(names, lib, order, on_top, acc):
     return True
 
 
+def same_object_above_several():
+    sep = ImplicitComment("% ----", start_line=0, raw="% ----")
+    e = lambda k, i: Entry("article", k, [], start_line=i, raw=f"@article{{{k}}}#{i}")
+    return [sep, e("b", 1), sep, e("a", 2), sep, sep, e("c", 3)]
+
+
 def run_special(acc):
     """(a) libraries holding structurally EQUAL blocks (the same preamble / comment / entry text twice, as when two files
     with the same header are merged): result must be a permutation and sorted; (b) keys outside ASCII: compared as the
@@ -171,6 +177,7 @@ def run_special(acc):
         lambda: [e("b", 1), twin(), ctwin(), e("a", 2), twin(), twin()],
         lambda: [e("f", 0), e("e\u0301", 1), e("\xe9", 2), e("e", 3), e("E", 4), e("\u017f", 5), e("s", 6), e("\xdf", 7), e("ss", 8)],
         lambda: [e("\u0130", 0), e("i", 1), e("I", 2), e("\u0131", 3), e("i\u0307", 4)],
+        same_object_above_several,
     ]
     for n, mk in enumerate(libs):
         for order in (ORDERS[0], ORDERS[3], ORDERS[30], ORDERS[-1]):
@@ -193,6 +200,24 @@ def run_special(acc):
                 rank = lambda b: types.index(type(b)) if type(b) in types else len(types)
                 key = lambda b: getattr(b, "key", "") if isinstance(getattr(b, "key", ""), str) else ""
                 seq = res if not on_top else [b for b in res if not is_comment(b)]
+                if on_top:
+                    # every non-comment block keeps exactly as many comments directly above it as it had
+                    def runs(bl):
+                        out, n_ = {}, 0
+                        for b in bl:
+                            if is_comment(b):
+                                n_ += 1
+                            else:
+                                out[b.raw] = n_
+                                n_ = 0
+                        return out
+
+                    if len({b.raw for b in inp if not is_comment(b)}) == len([b for b in inp if not is_comment(b)]) and runs(inp) != runs(res):
+                        acc.violation(
+                            {"oracle": "comment_run_stays_directly_above_its_block", "comments_on_top": True},
+                            {"case": case, "observed": [getattr(b, "key", "%") for b in res], "expected": "each block keeps the comments directly above it"},
+                        )
+                        continue
                 for x, y in zip(seq, seq[1:]):
                     if (rank(x), key(x)) > (rank(y), key(y)):
                         acc.violation(
